@@ -186,6 +186,9 @@ func registerVX() {
 			panic(unsupported{"vx.Guard: nil state"})
 		}
 		in.addGuard(st.v, g, 0)
+		if in.atomicFields == nil {
+			in.atomicFields = in.cfg.atomicFieldsOnce()
+		}
 		return nil
 	})
 	reg("GuardHits", func(in *Interp, c *frame, fn *ssa.Function, a []Value) Value {
